@@ -94,10 +94,19 @@ def _run(ctx):
         vb_q = SimpleNamespace(v_array=v, t_array=t, pressures=numpy.zeros((nt, ntv)))
         # a real Calculator object (so that helper methods a refactoring may introduce exist), built without running
         # __init__: only the stiffness field and the grids are injected
+        # ... with the effective configuration a settings file would give it: the crystal system and, by turns, the documented
+        # symmetry options at their defaults or at other admissible values (drop_atol in GPa, up to 0.05)
+        import cij.io
+        sym = {"system": system}
+        if i % 4 == 1:
+            sym["drop_atol"] = float(rng.choice([1e-4, 2e-3, 0.05]))
+        elif i % 4 == 2:
+            sym.update(residual_atol=float(rng.choice([0.01, 1.0])), ignore_rank=bool(i % 8 == 2), ignore_residuals=bool(i % 16 == 2))
+        config = cij.io.apply_default_config({"elast": {"settings": {"symmetry": sym}}})
         calc = Calculator.__new__(Calculator)
         calc.__dict__.update(_modulus_keys=list(adi.keys()), modulus_adiabatic=adi, modulus_isothermal=iso,
                              elast_data=SimpleNamespace(cellmass=mass, volumes=[SimpleNamespace(static_elastic_modulus=adi)]),
-                             qha_calculator=SimpleNamespace(volume_base=vb_q, v_array=v, t_array=t), config={})
+                             qha_calculator=SimpleNamespace(volume_base=vb_q, v_array=v, t_array=t), config=config)
         calc.volume_based_result = CijVolumeBaseInterface(calc)
         try:
             calc._calculate_compliances()
@@ -134,7 +143,8 @@ def _run(ctx):
         kv, kr = numpy.asarray(vb.bulk_modulus_voigt), numpy.asarray(vb.bulk_modulus_reuss)
         aniso = bool(numpy.any(numpy.abs(kv - kr) > 1e-9 * numpy.abs(kv)) or
                      numpy.any(numpy.abs(numpy.asarray(vb.shear_modulus_voigt) - numpy.asarray(vb.shear_modulus_reuss)) > 1e-9 * numpy.abs(kv)))
-        ctx.evaluation(f"{system}|{['all-nonzero', 'subset', 'superset-with-zeros'][mode]}", (system, i, tuple(sorted(keys))),
+        ctx.evaluation(f"{system}|{['all-nonzero', 'subset', 'superset-with-zeros'][mode]}|symmetry-options:{['default', 'drop_atol', 'residual/ignore', 'default'][i % 4]}",
+                       (system, i, tuple(sorted(keys))),
                        nontrivial=judged > 0 and aniso,
                        sample={"system": system, "grid": [nt, ntv], "components": ["c%d%d" % T.VOIGT21[k] for k in keys], "cell_mass": mass,
                                "c11[0,0] (GPa)": float(f[0, 0, 0] * U.GPA_PER_AU), "K_V[0,0] (GPa)": float(kv[0, 0] * U.GPA_PER_AU),
